@@ -127,7 +127,7 @@ def run_fx(a, idx, tier):
                         warnings.simplefilter('always')
                         with torch.no_grad():
                             sp = fggs.sum_products(g, method=method, semiring=AG.semiring_for(kind, dtype), tol=tol, kmax=1000, j_precompute=jp)
-                    r['warned'] = any('convergence' in str(w.message) for w in wl)
+                    r['warned'] = any('index type mismatch' not in str(w.message) for w in wl)    # ANY warning counts as "says otherwise" (wording is not specified)
                     for el, t in sp.items():
                         if el.is_nonterminal:
                             vals = t.to_dense().reshape(-1).tolist()
